@@ -633,6 +633,24 @@ fn run_values(ctx: &mut Ctx) {
             let desc = || json!({"kind":"longlist","n":n});
             ctx.case(&desc, |ctx| check_control(ctx, &m, &desc));
         }
+        // the same AVP repeated k times (many small records in one body)
+        for (mi, a) in menu.iter().enumerate() {
+            for k in [4usize, 5, 8, 16, 64] {
+                if !ctx.mine() {
+                    continue;
+                }
+                if spec::payload_of(a).len() > 300 {
+                    continue;
+                }
+                ctx.states += 1;
+                ctx.transitions += 1;
+                let mut avps = vec![mt.clone()];
+                avps.extend(std::iter::repeat(a.clone()).take(k));
+                let m = ctl(gen::TID, gen::SID, gen::NS, gen::NR, 0, avps);
+                let desc = || json!({"kind":"repeated","menu_index":mi,"k":k});
+                ctx.case(&desc, |ctx| check_control(ctx, &m, &desc));
+            }
+        }
         for filler in 1..=60usize {
             if !ctx.mine() {
                 continue;
@@ -827,6 +845,16 @@ fn replay_values(ctx: &mut Ctx, v: &Value) {
                 SMessage::Control { .. } => ctx.case(&desc, |ctx| check_control(ctx, &m, &desc)),
                 SMessage::Data { .. } => ctx.case(&desc, |ctx| check_data(ctx, &m)),
             };
+        }
+        Some("repeated") => {
+            let menu = vgen::list_menu();
+            let a = menu[v["menu_index"].as_u64().unwrap_or(0) as usize % menu.len()].clone();
+            let k = v["k"].as_u64().unwrap_or(4) as usize;
+            let mut avps = vec![SAvp::Plain { attr: 0, val: SVal::MessageType(1) }];
+            avps.extend(std::iter::repeat(a).take(k));
+            let m = ctl(gen::TID, gen::SID, gen::NS, gen::NR, 0, avps);
+            let desc = || v.clone();
+            ctx.case(&desc, |ctx| check_control(ctx, &m, &desc));
         }
         Some("longlist") => {
             let n = v["n"].as_u64().unwrap_or(5) as usize;
